@@ -618,8 +618,11 @@ fn oracle_hybrid_step(k: &mut Chk, pre: &Locomotive, post: &Locomotive, req: f64
     }
     // "a locomotive whose engine is commanded off consumes no fuel and no auxiliary power in that step"
     if engine_on == Some(false) {
-        k.req("C08", "hyb_engine_off_burns_nothing", fc.pwr_fuel.value == 0.0 && post.state.pwr_aux.value == 0.0 && g.pwr_elec_aux.value == 0.0,
-            || format!("hybrid commanded off still burns fuel: pwr_fuel {} W, generator aux {} W, loco aux {} W (request {} W)", fc.pwr_fuel.value, g.pwr_elec_aux.value, post.state.pwr_aux.value, req));
+        // two clauses, so that the known finding about the fuel cannot hide a different violation (aux drawn while off)
+        k.req("C08", "hyb_engine_off_burns_nothing", fc.pwr_fuel.value == 0.0 && g.pwr_elec_aux.value == 0.0,
+            || format!("hybrid commanded off still burns fuel: pwr_fuel {} W, generator aux {} W (request {} W)", fc.pwr_fuel.value, g.pwr_elec_aux.value, req));
+        k.req("C08", "hyb_engine_off_no_loco_aux", post.state.pwr_aux.value == 0.0 && post.state.energy_aux.value == pre.state.energy_aux.value,
+            || format!("hybrid commanded off draws auxiliary power: pwr_aux {} W, energy_aux {} -> {} J", post.state.pwr_aux.value, pre.state.energy_aux.value, post.state.energy_aux.value));
     }
     let _ = dt;
 }
